@@ -156,14 +156,21 @@ def main(run, tier):
     Node = g.asttypes_mod.Node
     run.explanation = ('per grammar production: every node the real action builds lists each node-valued attribute '
                        'exactly once in children()/__iter__ (O-children) and stores no child twice (O-linear => the '
-                       'parser builds trees, so a pre-order over children() has no duplicates); Walker.walk/filter/extract '
-                       'themselves are checked by a bounded stand-in only')
+                       'parser builds trees, so a pre-order over children() has no duplicates); Walker.walk yields the pre-order, '
+                       'filter yields the selected sub-sequence of it, extract returns its n-th element or raises (E1: loop contracts, '
+                       'recursion by contract, nodes of an uninterpreted sort); a bounded stand-in runs the same statements on parsed trees')
     for f in ('calmjs.parse.asttypes', 'calmjs.parse.walkers', 'calmjs.parse.parsers.es5'):
         run.function(f, scratch.sha256_file(scratch.module_path(f))[:16])
     run.floor = 500
     from .c14 import frame_obligations
     import contracts.frames as cf
     frame_obligations(run, cf.C16, 'C16')
+    # E1: Walker.walk / filter / extract against the pre-order spec, Node.__iter__ (contracts/walkers.py)
+    from ..e1run import verify_functions
+    import contracts.walkers as cwalk
+    wmod = importlib.import_module('calmjs.parse.walkers')
+    wcs, _ = cwalk.build(wmod, Node)
+    verify_functions(run, wcs, dict((c.qualname, c) for c in wcs if c.funcname.startswith('Walker.')), {}, tier=tier)
     total = 0
     for prod in g.productions:
         runs, probs = check_production(g, shapes, prod)
@@ -207,8 +214,10 @@ def main(run, tier):
     run.bounded_check('rt.walk', 'generated program per production and depth-2 nesting, plain and with a block comment '
                       'between all tokens, comment capture off/on; 5 conditions x 5 skip values', n, ok)
     run.trust('induction over the derivation: children are trees disjoint from each other (O-linear of their productions)')
-    run.assume('Walker.walk / filter / extract and Node.__iter__ are NOT under a deductive contract (recursive generators '
-               'over an opaque tree): bounded stand-in only -- this is why the level is "other", not "proof"')
+    run.assume('walker contracts: partial correctness (recursion used by contract; termination = finiteness of trees, O-linear); flat / filt are '
+               'introduced as the monoid homomorphisms fixed by their value on singletons, their defining equations are revealed at the '
+               'instances used; Node.__iter__ is verified for children() lists of length <= 3 (every None pattern), longer lists by the '
+               'bounded stand-in; the finding F17 (comments are stored outside children()) is why "every node stored in any attribute" fails')
 
 
 def replay(data):
